@@ -172,6 +172,8 @@ def jd_month_tables(ctx, ym):
 
 
 def run(ctx):
+    from rules import shared
+    ctx.include('jd_tables', shared.jd_tables)           # civil date <-> day number per (year, month) (shared, cached per source hash)
     I = ctx.interp(fuel=30000000)
     t = T(I)
     p = ctx.prog
@@ -209,7 +211,8 @@ def run(ctx):
           'a date is accepted iff it exists in the proleptic Julian/Gregorian calendar (the ten dropped days of October 1582 refused)', lambda x: '%d-%d-%d' % x, fn_site(p, 'SolarDay::new'))
 
     # ---- comparators
-    pts = [(y, m, d) for y in (1999, 2000) for m in (3, 4) for d in (9, 10)]
+    # every order type of (year, month, day) with interior AND extreme field values (a weighted-key comparator overlaps only at the extremes)
+    pts = [(y, m, d) for y in (1999, 2000) for m in (1, 3, 4, 12) for d in (1, 9, 10, 31) if CAL.exists(y, m, d)]
 
     def mk(x):
         return I.call('SolarDay::from_ymd', list(x))
